@@ -11,9 +11,12 @@ FNS = ["count_star", "count", "sum", "min", "max", "bool_and", "bool_or"]
 def table(rng, n, groups, null_pct):
     types = [qgen.INT, qgen.INT, qgen.STR, qgen.BOOL]
     rows = []
+    regime = rng.below(3)           # 0: all values negative, 1: all positive, 2: mixed  (a default 0 must never win min/max)
+    vnull = rng.pick([15, 15, 60])
     for _ in range(n):
         g = None if rng.below(100) < null_pct else rng.below(max(1, groups))
-        v = None if rng.below(100) < 15 else rng.below(201) - 150          # mostly negative values: max() must not fall back to 0
+        base = rng.below(150) + 1
+        v = None if rng.below(100) < vnull else (-base if regime == 0 else base if regime == 1 else base - 75)
         rows.append([g, v, qgen.gen_value(rng, qgen.STR, 15), qgen.gen_value(rng, qgen.BOOL, 15)])
     return types, rows
 
@@ -79,6 +82,18 @@ def body(ck, tier, runner):
         sd.check(db, queries, cfgs, inserts=rng.pick([1, 4, 9]))
         if d < 2:
             ck.sample({"query": qgen.sexp(queries[0]), "rows": n, "groups": groups})
+    # volume stream: more distinct groups than the initial hash-table capacity, every key recurring after the resize
+    for v in range(4 if tier == "quick" else 40):
+        nkeys = rng.pick([1000, 1500, 2200])
+        reps = rng.pick([3, 4, 6])
+        keys = [(a * rng.pick([1, 1, 7919])) % nkeys for a in range(1, nkeys * reps + 1)] if v % 2 == 0 else rng.shuffle(list(range(nkeys)) * reps)
+        rows = [[k, -(k % 97) - 1, None, k % 3 == 0] for k in keys]
+        db = {"t0": ([qgen.INT, qgen.INT, qgen.STR, qgen.BOOL], rows)}
+        queries = [("agg", [("col", 0)], [("count_star", False, ("lit", None), None), ("max", False, ("col", 1), None), ("sum", False, ("col", 1), None)], ("scan", "t0")),
+                   ("distinct", ("project", [("col", 0)], ("scan", "t0"))),
+                   ("agg", [], [("count", True, ("col", 0), None), ("max", False, ("col", 1), None)], ("scan", "t0"))]
+        p = rng.pick([2, 4])
+        sd.check(db, queries, [("p1", ["SET partitions TO 1", "SET batch_size TO 2048"]), (f"p{p}", [f"SET partitions TO {p}", "SET batch_size TO 2048"])], inserts=rng.pick([1, 2]))
     sd.finish()
 
 
